@@ -18,6 +18,9 @@ type recvCase struct {
 	kind     string
 	// for the oracle: what an honest sender meant (nil if unknown)
 	intended []byte
+	// for the oracle: a valid stream (tokens denote expect, trailer right): must commit expect
+	expect    []byte
+	hasExpect bool
 }
 
 func recvErrClass(err error) string {
@@ -50,13 +53,21 @@ func runRecvCase(r *run, comp, id string, c *recvCase, base string) {
 	if c.hasBasis {
 		os.WriteFile(fn, c.basis, 0o644)
 	}
-	_, err := verifhook.ReceiverRecvFile(c.seed, dir, "f", 0o100644, 1_000_000_000, c.wire, verifhook.ReceiverOpts{PreservePerms: true, PreserveTimes: true})
+	consumed, err := verifhook.ReceiverRecvFile(c.seed, dir, "f", 0o100644, 1_000_000_000, c.wire, verifhook.ReceiverOpts{PreservePerms: true, PreserveTimes: true})
 	after, rerr := os.ReadFile(fn)
 	obs := ""
+	if c.hasExpect && (err != nil || !bytes.Equal(after, c.expect)) {
+		r.oracleFail(id, "valid token stream: the receiver did not write exactly the bytes the stream denotes", c.detail())
+	}
 	if err == nil {
 		obs = "C:" + hexOrDash(after)
 		if rerr != nil {
 			r.oracleFail(id, "success reported but destination missing", c.detail())
+		}
+		// only data that passes the whole-file checksum replaces the file:
+		// the 16 bytes consumed as trailer must be the sum of what was committed
+		if consumed < 16 || consumed > len(c.wire) || !bytes.Equal(c.wire[consumed-16:consumed], fileSum(c.seed, after)) {
+			r.oracleFail(id, "committed content does not match the whole-file checksum trailer of the stream", c.detail())
 		}
 		if c.intended != nil && !bytes.Equal(after, c.intended) && !bytes.Equal(fileSum(c.seed, after), fileSum(c.seed, c.intended)) {
 			r.oracleFail(id, "a damaged stream was reported as a successful transfer of different content", c.detail())
@@ -173,6 +184,9 @@ func runRecv(r *run) error {
 						wire.Write(bytes.Repeat([]byte{0x5a}, 16))
 					}
 					c := &recvCase{seed: 9, hasBasis: bi != 0, basis: basis, wire: wire.Bytes(), kind: "exh"}
+					if derr == nil && good && (bi != 0 || allLits(ts)) {
+						c.expect, c.hasExpect = den, true
+					}
 					runRecvCase(r, "recv", next(), c, base)
 				}
 			}
@@ -220,8 +234,10 @@ func runRecv(r *run) error {
 		wire.Write(encToks(ts))
 		wire.Write(le32(0))
 		kind := "rnd-valid"
+		valid := false
 		if derr == nil && hasBasis || derr == nil && allLits(ts) {
 			wire.Write(fileSum(seed, den))
+			valid = true
 		} else {
 			wire.Write(g.bytes(16))
 			kind = "rnd-badref"
@@ -239,6 +255,9 @@ func runRecv(r *run) error {
 			kind = "rnd-flip"
 		}
 		c := &recvCase{seed: seed, hasBasis: hasBasis, basis: basis, wire: w, kind: kind}
+		if valid && kind == "rnd-valid" {
+			c.expect, c.hasExpect = den, true
+		}
 		if saneLengths(w) {
 			runRecvCase(r, "recv", next(), c, base)
 		}
